@@ -150,3 +150,71 @@ func runC04InMemory(cfg *vc.Config, rep *vc.Report) {
 		}
 	})
 }
+
+// C10 on storage.InMemoryStore (an anchor of C10: the already-reverted guard reads the Reverted flag from the store):
+// sequential histories that revert, then touch the reverted transaction's metadata, then revert again.
+func runC10InMemory(cfg *vc.Config, rep *vc.Report) {
+	ctx := context.Background()
+	cfg.Cases(600, 40000, func(i int, r *vc.Rand) {
+		st := &capStore{InMemoryStore: storage.NewInMemoryStore()}
+		cmd := command.New(st, command.NoOpLocker, command.NewCompiler(16), command.NewReferencer(), bus.NewNoOpMonitor())
+		_ = cmd.Init(ctx)
+		go func() {
+			defer func() { _ = recover() }()
+			cmd.Run(ctx)
+		}()
+		defer func() { go func() { defer func() { _ = recover() }(); cmd.Close() }() }()
+		g := &opGen{r: r}
+		ops := []Op{g.fund("alice", 1000)}
+		nTx := 1
+		for k := r.Range(1, 3); k > 0; k-- {
+			ops = append(ops, g.postings(P("alice", vc.Pick(r, []string{"bob", "carol"}), int64(r.Range(1, 50))), P("alice", "dave", int64(r.Range(1, 50)))))
+			nTx++
+		}
+		for k := r.Range(3, 14); k > 0; k-- {
+			id := fmt.Sprint(r.Intn(nTx))
+			switch r.Intn(6) {
+			case 0, 1:
+				ops = append(ops, g.revert(id, r.Bool()))
+				nTx++
+			case 2:
+				ops = append(ops, g.saveMetaTx(id))
+			case 3:
+				ops = append(ops, g.delMetaTx(id))
+			case 4:
+				ops = append(ops, g.saveMetaAcc("alice", nil))
+			default:
+				ops = append(ops, g.fund("alice", int64(r.Range(1, 100))))
+				nTx++
+			}
+		}
+		rep.Current(map[string]any{"index": i, "ops": ops})
+		rep.Eval()
+		gen := &Generation{cmd: cmd}
+		o := &Observed{DeathFree: true}
+		for k, op := range ops {
+			res := execOp(ctx, gen, op)
+			o.Recs = append(o.Recs, &Record{Seq: k, Client: "c", Gen: 1, Op: op, Res: res, CallStep: int64(2 * k), RetStep: int64(2*k + 1)})
+			if op.Kind == "revert" {
+				rep.Inc("inmemory_reverts")
+				if res.OK {
+					rep.Inc("inmemory_reverts_ok")
+				} else if res.Class == "already-reverted" {
+					rep.Inc("inmemory_reverts_refused_as_already_reverted")
+				}
+			}
+		}
+		o.Logs = st.logs
+		for range o.Logs {
+			o.CommitSteps = append(o.CommitSteps, 0)
+		}
+		seen := map[string]bool{}
+		for _, f := range checkReverts(o) {
+			if !seen[f.Rule] {
+				seen[f.Rule] = true
+				rep.Violate("inmemory:"+f.Rule, f.What, i, map[string]any{"index": i, "ops": ops})
+			}
+		}
+		rep.DistinctCase(vc.Hash64(fmt.Sprint(i), fmt.Sprint(len(ops))))
+	})
+}
